@@ -231,7 +231,7 @@ func cmdVerify(args []string) int {
 func (e *Engine) verifyAll(fns []*ssa.Function, opt *Options) []*FuncResult {
 	results := make([]*FuncResult, len(fns))
 	var wg sync.WaitGroup
-	sem := make(chan struct{}, 12)
+	sem := make(chan struct{}, 8)
 	for i, fn := range fns {
 		wg.Add(1)
 		go func(i int, fn *ssa.Function) {
@@ -277,6 +277,14 @@ func printResult(r *FuncResult, verbose bool) {
 
 // ---------------------------------------------------------------- discharge
 
+var solverSem = make(chan struct{}, 14)
+
+func runSolverLimited(solver, file string, timeout time.Duration) solverResult {
+	solverSem <- struct{}{}
+	defer func() { <-solverSem }()
+	return runSolver(solver, file, timeout)
+}
+
 func (e *Engine) discharge(res *FuncResult, t *tr, body string, opt *Options) {
 	if len(res.Obls) == 0 && len(t.returns) == 0 {
 		return
@@ -285,15 +293,41 @@ func (e *Engine) discharge(res *FuncResult, t *tr, body string, opt *Options) {
 	if per == 0 {
 		per = 10 * time.Second
 	}
-	mk := func(solver string, obls []*Obligation, withVacuity bool) string {
+	first := per
+	if first > 4*time.Second {
+		first = 4 * time.Second
+	}
+	mk := func(solver string, obls []*Obligation, withVacuity bool, limit time.Duration) string {
 		var sb strings.Builder
 		sb.WriteString(e.buildPrelude(solver))
 		if solver != "cvc5" {
-			fmt.Fprintf(&sb, "(set-option :timeout %d)\n", per.Milliseconds())
+			fmt.Fprintf(&sb, "(set-option :timeout %d)\n", limit.Milliseconds())
+			if opt.Seed != 0 {
+				fmt.Fprintf(&sb, "(set-option :smt.random_seed %d)\n", opt.Seed%1000000)
+			}
 		}
-		sb.WriteString(body)
+		// obligations are checked in program order, each under the facts that precede it; afterwards it is assumed
+		idx := map[*Obligation]bool{}
 		for _, o := range obls {
-			fmt.Fprintf(&sb, "(push 1)\n(assert (and %s (not %s)))\n(check-sat)\n(pop 1)\n", o.Guard, o.Goal)
+			idx[o] = true
+		}
+		single := len(obls) == 1
+		for _, line := range strings.Split(body, "\n") {
+			if strings.HasPrefix(line, ";;OBL ") {
+				var k int
+				fmt.Sscanf(line, ";;OBL %d", &k)
+				o := res.Obls[k]
+				if idx[o] {
+					fmt.Fprintf(&sb, "(push 1)\n(assert (and %s (not %s)))\n(check-sat)\n(pop 1)\n", o.Guard, o.Goal)
+					if single {
+						break
+					}
+				}
+				fmt.Fprintf(&sb, "(assert (=> %s %s))\n", o.Guard, o.Goal)
+				continue
+			}
+			sb.WriteString(line)
+			sb.WriteString("\n")
 		}
 		if withVacuity {
 			for _, r := range t.returns {
@@ -306,18 +340,39 @@ func (e *Engine) discharge(res *FuncResult, t *tr, body string, opt *Options) {
 	if len(base) > 120 {
 		base = base[len(base)-120:]
 	}
-	script := mk("z3-new", res.Obls, true)
+	script := mk("z3-new", res.Obls, false, first)
 	res.SMTBytes = len(script)
 	file := writeScratch(base+".smt2", script)
 	if opt.KeepSMT != "" {
 		os.MkdirAll(opt.KeepSMT, 0755)
 		os.WriteFile(filepath.Join(opt.KeepSMT, base+".smt2"), []byte(script), 0644)
 	}
-	total := time.Duration(len(res.Obls)+len(t.returns)+1) * per
+	total := time.Duration(len(res.Obls)+1) * first
 	if total > 10*time.Minute {
 		total = 10 * time.Minute
 	}
-	sr := runSolver("z3-new", file, total)
+	// vacuity probes run beside the main script: a return that is provably unreachable means contradictory assumptions
+	vacDone := make(chan struct{})
+	go func() {
+		defer close(vacDone)
+		if len(t.returns) == 0 {
+			return
+		}
+		vf := writeScratch(base+"_vac.smt2", mk("z3-new", nil, true, 1500*time.Millisecond))
+		vr := runSolverLimited("z3-new", vf, time.Duration(len(t.returns)+1)*1500*time.Millisecond)
+		unreach := 0
+		for i := range t.returns {
+			if i < len(vr.lines) && vr.lines[i] == "unsat" && len(vr.errors) == 0 {
+				unreach++
+			}
+		}
+		// a single unreachable return is normal (code after a call that never returns); none reachable = contradiction
+		if unreach == len(t.returns) {
+			res.Vacuous = append(res.Vacuous, "no return is reachable under the contract's assumptions (contradictory requires / assumed contracts)")
+		}
+	}()
+	defer func() { <-vacDone }()
+	sr := runSolverLimited("z3-new", file, total)
 	res.SolverMs += sr.millis
 	if len(sr.errors) > 0 {
 		res.Fatal = append(res.Fatal, "solver error: "+sr.errors[0])
@@ -336,25 +391,32 @@ func (e *Engine) discharge(res *FuncResult, t *tr, body string, opt *Options) {
 			pending = append(pending, o)
 		}
 	}
-	for i, r := range t.returns {
-		k := len(res.Obls) + i
-		if k < len(sr.lines) && sr.lines[k] == "unsat" && len(sr.errors) == 0 {
-			res.Vacuous = append(res.Vacuous, fmt.Sprintf("return %d (%s) is unreachable under the contract's assumptions", i+1, r))
-		}
-	}
 	if len(pending) == 0 || len(sr.errors) > 0 {
 		return
 	}
 	// second opinion on what z3-new did not discharge: old z3 and cvc5, one script per obligation, in parallel
 	var wg sync.WaitGroup
 	var mu sync.Mutex
+	if len(pending) > 60 {
+		for _, o := range pending {
+			o.Note = "too many open obligations in this function: second opinion skipped"
+		}
+		return
+	}
 	for _, o := range pending {
-		for _, solver := range []string{"z3", "cvc5"} {
+		for _, solver := range []string{"z3-new", "z3", "cvc5"} {
+			if solver == "z3-new" && per <= first {
+				continue
+			}
 			wg.Add(1)
 			go func(o *Obligation, solver string) {
 				defer wg.Done()
-				f := writeScratch(fmt.Sprintf("%s_%s_%s.smt2", base, sanitize(o.Name), solver), mk(solver, []*Obligation{o}, false))
-				r := runSolver(solver, f, per)
+				scr := mk(solver, []*Obligation{o}, false, per)
+				f := writeScratch(fmt.Sprintf("%s_%s_%s.smt2", base, sanitize(o.Name), solver), scr)
+				if opt.KeepSMT != "" {
+					os.WriteFile(filepath.Join(opt.KeepSMT, fmt.Sprintf("%s_%s.smt2", sanitize(o.Name), solver)), []byte(scr), 0644)
+				}
+				r := runSolverLimited(solver, f, per)
 				mu.Lock()
 				defer mu.Unlock()
 				res.SolverMs += r.millis
@@ -368,12 +430,36 @@ func (e *Engine) discharge(res *FuncResult, t *tr, body string, opt *Options) {
 	}
 	wg.Wait()
 	// models for what is still open: quantifier-free relaxation first (fast), then MBQI
+	nm := 0
 	for _, o := range pending {
 		if o.Status == "unsat" {
 			continue
 		}
-		e.findModel(o, t, body, base, per)
+		if nm++; nm > 8 {
+			break
+		}
+		e.findModel(o, t, prefixFor(res, body, o), base, per)
 	}
+}
+
+// prefixFor: the part of the script that precedes obligation o (earlier obligations assumed).
+func prefixFor(res *FuncResult, body string, o *Obligation) string {
+	var sb strings.Builder
+	for _, line := range strings.Split(body, "\n") {
+		if strings.HasPrefix(line, ";;OBL ") {
+			var k int
+			fmt.Sscanf(line, ";;OBL %d", &k)
+			p := res.Obls[k]
+			if p == o {
+				break
+			}
+			fmt.Fprintf(&sb, "(assert (=> %s %s))\n", p.Guard, p.Goal)
+			continue
+		}
+		sb.WriteString(line)
+		sb.WriteString("\n")
+	}
+	return sb.String()
 }
 
 // findModel tries to obtain a concrete counterexample. Pass 2a drops quantified assumptions (a relaxation: any model
@@ -384,7 +470,7 @@ func (e *Engine) findModel(o *Obligation, t *tr, body, base string, per time.Dur
 	want := t.modelTerms()
 	q := fmt.Sprintf("(assert (and %s (not %s)))\n(check-sat)\n(get-value (%s))\n", o.Guard, o.Goal, strings.Join(want, " "))
 	f := writeScratch(fmt.Sprintf("%s_%s_relax.smt2", base, sanitize(o.Name)), dropQuantified(prel)+fmt.Sprintf("(set-option :timeout %d)\n", per.Milliseconds())+relaxed+dropQuantified(q))
-	r := runSolver("z3-mbqi", f, per)
+	r := runSolverLimited("z3-mbqi", f, 5*time.Second)
 	if len(r.lines) > 0 && r.lines[0] == "sat" {
 		o.Status = "sat"
 		o.Model = strings.Join(r.lines[1:], "\n")
@@ -392,7 +478,7 @@ func (e *Engine) findModel(o *Obligation, t *tr, body, base string, per time.Dur
 		return
 	}
 	f = writeScratch(fmt.Sprintf("%s_%s_mbqi.smt2", base, sanitize(o.Name)), prel+fmt.Sprintf("(set-option :timeout %d)\n", per.Milliseconds())+body+q)
-	r = runSolver("z3-mbqi", f, per)
+	r = runSolverLimited("z3-mbqi", f, per)
 	if len(r.lines) > 0 && r.lines[0] == "sat" {
 		o.Status = "sat"
 		o.Model = strings.Join(r.lines[1:], "\n")
